@@ -34,7 +34,7 @@ RULE = ('enum: every sequence of length <= 8 (quick: <= 6) over alphabets of siz
         'shuffles up to 16 sequences, each with its own planned draws); n=2 (cumulative in-place '
         'permutation, "all identical" guard) for every sequence of length <= 5 (quick: <= 4) and every '
         'pair of families; every (start, end) in [-L-2, L+2]^2 for sampled sequences. obs: compiled '
-        'function on every sequence of the same scope (batched), end = L (seeds 0..1) and the default end = -1, plus random '
+        'function on every sequence of the same scope (batched), end = L (seeds 0..1 up to length 7) and the default end = -1, plus random '
         'sequences up to length 300, alphabets 2-8, batch <= 4, n in {1,2,5,20}, random regions incl. '
         'negative bounds. shuf: every sequence of length <= 6 (quick: <= 5) batched, every region in '
         '[-L-2, L+2]^2, n in {1,2}, seeds; random long; plus a malformed stream. Non-trivial = the call '
@@ -96,8 +96,8 @@ def from_seq(Y):
 
 def codes_lit(A, codes):
     """a one-hot row given by its character codes"""
-    if A <= 10:
-        return '(dn %s 1%s)' % (C.nat(A), ''.join(str(int(k)) for k in codes))
+    if A <= 16:
+        return '(dn %s 0x1%s)' % (C.nat(A), ''.join('%x' % int(k) for k in codes))
     return '(en %s %s)' % (C.nat(A), natl(codes))
 
 
@@ -109,18 +109,18 @@ def seq_lit(A, enc):
 
 def natl(xs):
     xs = [int(x) for x in xs]
-    if xs and max(xs) <= 9:
-        return '(dg 1%s)' % ''.join(str(x) for x in xs)
+    if xs and max(xs) <= 15:
+        return '(dg 0x1%s)' % ''.join('%x' % x for x in xs)
     return '(%s)%%nat' % C.lst([str(x) for x in xs])
 
 
 def digits(rows):
-    return '1' + ''.join(str(int(k)) for r in rows for k in r)
+    return '0x1' + ''.join('%x' % int(k) for r in rows for k in r)
 
 
 def tensor_lit(A, seqs):
     L = len(seqs[0]) if seqs else 0
-    if seqs and L >= 1 and A <= 9 and all(k >= 0 for s in seqs for k in s):
+    if seqs and L >= 1 and A <= 16 and all(k >= 0 for s in seqs for k in s):
         return '(T %s %s (dnb %s %s %s))' % (C.nat(A), C.nat(L), C.nat(A), C.nat(L), digits(seqs))
     rows = []
     for s in seqs:
@@ -299,7 +299,7 @@ def outcome_lit(inp, out, transpose):
         Y = [[Y[b][i] for b in range(len(Y))] for i in range(n)]
     k = len(Y[0]) if Y else 0
     L = len(Y[0][0][1]) if k else 0
-    if (Y and k >= 1 and L >= 1 and A <= 9 and all(len(row) == k for row in Y)
+    if (Y and k >= 1 and L >= 1 and A <= 16 and all(len(row) == k for row in Y)
             and all(e[0] == 'c' and len(e[1]) == L for row in Y for e in row)):
         return '(Ok (obn %s %s %s %s))' % (C.nat(A), C.nat(L), C.nat(k),
                                            digits([e[1] for row in Y for e in row]))
@@ -323,8 +323,9 @@ def coq_case(inp, out):
         n = len(plan[0]) if plan else 0
         flat = [p for ex in plan for sh in ex for p in sh]
         if (n >= 1 and all(len(ex) == n and all(len(sh) == A for sh in ex) for ex in plan)
-                and all(x <= 8 for p in flat for x in p)):
-            sig = '(sgn %s %s 1%s)' % (C.nat(A), C.nat(n), ''.join(''.join(str(x) for x in p) + '9' for p in flat))
+                and all(x <= 14 for p in flat for x in p)):
+            sig = '(sgn %s %s 0x1%s)' % (C.nat(A), C.nat(n),
+                                         ''.join(''.join('%x' % x for x in p) + 'f' for p in flat))
         else:
             sig = C.lst([C.lst([C.lst([natl(p) for p in sh]) for sh in ex]) for ex in plan])
         call = '(CDinuc %s %s %s %s)' % (X, C.z(inp['start']), C.z(inp['end']), sig)
@@ -450,10 +451,10 @@ def generate(tier, rng):
             seqs = all_seqs(A, L)
             rng.shuffle(seqs)
             for i in range(0, len(seqs), 64):
-                for end, seed in ((L, 0), (-1, 0)) if quick else ((L, 0), (L, 1), (-1, 0)):
+                for end, seed in ((L, 0), (-1, 0)) if (quick or L == 8) else ((L, 0), (L, 1), (-1, 0)):
                     yield {'kind': 'obs', 'A': A, 'seqs': seqs[i:i + 64], 'start': 0, 'end': end,
                            'n': 1, 'seed': seed}
-    for _ in range(150 if quick else 1500):
+    for _ in range(150 if quick else 700):
         A = rng.choice([2, 3, 4, 4, 4, 5, 8])
         L = rng.choice([3, 4, 6, 9, 14, 20, 33, 50, 80, 120, 200, 300])
         n = rng.choice([1, 1, 2, 5, 20, 0])
@@ -477,7 +478,7 @@ def generate(tier, rng):
             for (st, en) in regions:
                 yield {'kind': 'shuf', 'A': A, 'seqs': seqs, 'start': st, 'end': en,
                        'n': rng.choice([1, 2]), 'seed': rng.choice([0, 1, 2])}
-    for _ in range(150 if quick else 1500):
+    for _ in range(150 if quick else 700):
         A = rng.choice([2, 3, 4, 4, 5, 8])
         L = rng.choice([3, 5, 8, 13, 21, 40, 80, 150, 300])
         B = rng.randint(1, 4)
